@@ -293,3 +293,49 @@ Definition hhas_col (o : xoutcome) (obj f : nat) : bool :=
   | XOk st => match obs st obj with Some t => match lookup t f with Some _ => true | None => false end | None => false end
   | XFail _ => false
   end.
+
+(* ---- witnesses (Props/C06inplace.v).  Object 0 holds column 0 (lu_store); lu_d1: column 1 := col0, lu_d2: column 2 := 2*col0 ---- *)
+Definition w_m1 : xaction := XInpl Mutate 0 [lu_d1].          (* in place: mutates the frame it was handed *)
+Definition w_s1 : xaction := XInpl Series 0 [lu_d1].          (* in place: returns a Series, transform inserts it into self.data *)
+Definition w_r1 : xaction := XRepl (ACalc 0 [lu_d1]).         (* the same calculation, replacing (self.data.assign(...)) *)
+Definition w_m2 : xaction := XInpl Mutate 0 [lu_d2].
+Definition w_r2 : xaction := XRepl (ACalc 0 [lu_d2]).
+Definition w_mr : list xstep := [(1, w_m1); (2, w_r2)].       (* in place (mutate) next to replacing *)
+Definition w_sr : list xstep := [(1, w_s1); (2, w_r2)].       (* in place (series) next to replacing *)
+Definition w_sm : list xstep := [(1, w_s1); (2, w_m2)].       (* both in place *)
+Definition w_rm : list xstep := [(1, w_r1); (2, w_m2)].       (* w_sm after the Series branch was made replacing *)
+(* step 2 (replacing) copies before step 1 inserts and writes last: column 1 is lost *)
+Definition wev_a : list xevent := [ERead 1; ERead 2; ECalc 2; EIns 1 0; EWrite 1; EWrite 2].
+(* step 2 (replacing) writes, then step 1 inserts and writes its handle: for Mutate column 2 is lost (old frame restored) *)
+Definition wev_b : list xevent := [ERead 1; ERead 2; ECalc 2; EWrite 2; EIns 1 0; EWrite 1].
+(* step 1 inserts while step 2 has copied but not written; step 1 writes last: column 2 is lost for both in-place variants *)
+Definition wev_c : list xevent := [ERead 1; ERead 2; ECalc 2; EIns 1 0; EWrite 2; EWrite 1].
+(* step 1 inserts before step 2 copies; step 2 writes last: nothing is lost *)
+Definition wev_d : list xevent := [ERead 1; ERead 2; EIns 1 0; ECalc 2; EWrite 1; EWrite 2].
+(* both in place: every interleaving keeps both columns, e.g. *)
+Definition wev_ii : list xevent := [ERead 1; ERead 2; EIns 2 0; EIns 1 0; EWrite 2; EWrite 1].
+(* w_rm: step 1 now copies (ECalc 1), step 2 inserts into the old frame, step 1 writes last: column 2 is lost *)
+Definition wev_reg : list xevent := [ERead 1; ERead 2; ECalc 1; EIns 2 0; EWrite 2; EWrite 1].
+
+(* ---- a non-trivial plan satisfying the premises ----
+   step 0: root object 0 (column 0);  steps 1,2,3: in place on object 0, unordered among each other (1: Mutate, column 1;
+   2: Series, column 2; 3: Mutate, columns 3 and 4);  step 4: replacing, column 5 := col1 + col2 + col3, after 1,2,3;
+   step 5: root of object 1, independent of everything. *)
+Definition xe_d1 : fdef := {| fname := 1; inputs := [0]; c0 := 10%Z; coefs := [3%Z] |}.
+Definition xe_d2 : fdef := {| fname := 2; inputs := [0]; c0 := 0%Z; coefs := [2%Z] |}.
+Definition xe_d3 : fdef := {| fname := 3; inputs := [0]; c0 := 1%Z; coefs := [1%Z] |}.
+Definition xe_d4 : fdef := {| fname := 4; inputs := [0]; c0 := 0%Z; coefs := [(-1)%Z] |}.
+Definition xe_d5 : fdef := {| fname := 5; inputs := [1; 2; 3]; c0 := 0%Z; coefs := [1%Z; 1%Z; 1%Z] |}.
+Definition xe_steps : list xstep :=
+  [(0, XRepl (ARoot 0 [(0, [Some 1%Z; None])])); (1, XInpl Mutate 0 [xe_d1]); (2, XInpl Series 0 [xe_d2]);
+   (3, XInpl Mutate 0 [xe_d3; xe_d4]); (4, XRepl (ACalc 0 [xe_d5])); (5, XRepl (ARoot 1 [(7, [Some 4%Z; Some 5%Z])]))].
+Definition xe_plan : Orch.plan :=
+  [ {| Orch.sid := 0; Orch.skind := Orch.KFG; Orch.uuids := [1]; Orch.req := []; Orch.requested := false |};
+    {| Orch.sid := 1; Orch.skind := Orch.KFG; Orch.uuids := [2]; Orch.req := [1]; Orch.requested := false |};
+    {| Orch.sid := 2; Orch.skind := Orch.KFG; Orch.uuids := [3]; Orch.req := [1]; Orch.requested := false |};
+    {| Orch.sid := 3; Orch.skind := Orch.KFG; Orch.uuids := [4; 5]; Orch.req := [1]; Orch.requested := true |};
+    {| Orch.sid := 4; Orch.skind := Orch.KFG; Orch.uuids := [6]; Orch.req := [1; 2; 3; 4]; Orch.requested := true |};
+    {| Orch.sid := 5; Orch.skind := Orch.KFG; Orch.uuids := [7]; Orch.req := []; Orch.requested := true |} ].
+Definition xe_ev : list xevent :=
+  [ERead 0; ERead 5; ECalc 0; EWrite 0; ERead 2; ERead 1; ERead 3; EIns 3 1; EIns 1 0; ECalc 5; EIns 2 0; EWrite 1;
+   EIns 3 0; EWrite 5; EWrite 3; EWrite 2; ERead 4; ECalc 4; EWrite 4].
